@@ -471,7 +471,8 @@ class Gen:
             if running:
                 r = [(l,) for l in running]
                 cats += [("declare", 6, r), ("define", 16, r), ("amend", 8, r), ("end", 10, r),
-                         ("hold", 2, r), ("release", 2, r), ("tree", 5, r), ("treefiles", 3, r)]
+                         ("hold", 2, r), ("release", 2, r), ("tree", 5, r), ("treefiles", 3, r),
+                         ("treeforeign", 2, r)]
                 if any(self.detached.get(("step", l), False) and l in self.sstate for l in self.defs):
                     cats.append(("redefine", 12, r))
             if checks:
@@ -540,6 +541,17 @@ class Gen:
             await self.record(("declare_static", ("step", label), self.subset(under, 1, 2)))
         if self.rng.random() < 0.6:
             await self.record(("register_tree", ("step", label), tree))
+
+    async def g_treeforeign(self, label):
+        """A running step registers a tree over attached static files that another creator declared
+        (rejected: nothing may be handed over); without such files, a plain registration."""
+        static = (FileState.UNCONFIRMED.value, FileState.MISSING.value, FileState.CONFIRMED.value)
+        cands = sorted({tree for tree in TREES for f in FILES
+                        if f.startswith(tree) and not self.detached.get(("file", f), True)
+                        and self.fstate.get(f) in static
+                        and self.creator.get(("file", f)) not in (None, ("step", label))})
+        tree = self.rng.choice(cands) if cands else self.rng.choice(TREES)
+        await self.record(("register_tree", ("step", label), tree))
 
     async def g_define(self, label):
         rng = self.rng
